@@ -1269,7 +1269,25 @@ func simulate(start *ssa.BasicBlock, stop map[*ssa.BasicBlock]bool, oracle func(
 
 // simulateFrom: as simulate, with start entered along the edge from->start (the
 // phis of start take the values of that edge).
+// simCallBudget bounds the number of path simulations of one optional exploration (the
+// "ends of a domain are accepted" check): negative = unlimited.  When it is used up every
+// further simulation answers "everything is reachable", which can only turn a verdict into
+// "not proven", never into a violation.
+var simCallBudget int64 = -1
+
 func simulateFrom(start, from0 *ssa.BasicBlock, stop map[*ssa.BasicBlock]bool, oracle func(ssa.Value) (bool, bool)) map[*ssa.BasicBlock]bool {
+	if simCallBudget == 0 {
+		all := map[*ssa.BasicBlock]bool{}
+		if start != nil && start.Parent() != nil {
+			for _, b := range start.Parent().Blocks {
+				all[b] = true
+			}
+		}
+		return all
+	}
+	if simCallBudget > 0 {
+		simCallBudget--
+	}
 	// Boolean phis (the value form of && and ||, flags such as isTarget := a && b) are
 	// tracked along the path: entering a block by an edge fixes the value of its bool
 	// phis when the incoming value is a constant, a tracked phi, or decided by the oracle.
